@@ -37,7 +37,7 @@ const keyIntoDesc = "C18-rename-into-descendant"
 
 func TestMain(m *testing.M) {
 	fkit.QuietGlog(vlib.TempDir())
-	vlib.Rule("C18: rapid op sequences (4-24 ops: create file/dir with missing parents, O_EXCL create, update, delete recursive or not with/without data, AtomicRenameEntry to new names, onto existing files/dirs, across directories, into own descendants) over paths {a,b,c}^<=3 under a per-case root on leveldb, leveldb2, leveldb3 (plain and under /buckets/x) and an in-memory store, plus exhaustive sequences over 5 paths. Non-trivial = history containing a successful rename of an existing entry or a recursive delete of a non-empty directory. Distinct = distinct op sequence incl. store kind.")
+	vlib.Rule("C18: rapid op sequences (4-24 ops: create file/dir with missing parents, O_EXCL create, update, delete recursive or not with/without data, AtomicRenameEntry to new names, onto existing files/dirs, across directories, into own descendants) over paths {a,ab,b,c}^<=3 (a is a proper string prefix of its sibling ab) under a per-case root on leveldb, leveldb2, leveldb3 (plain and under /buckets/x) and an in-memory store, plus exhaustive sequences over the 5 paths /a /ab /a/a /a/ab /ab/a. Non-trivial = history containing a successful rename of an existing entry or a recursive delete of a non-empty directory. Distinct = distinct op sequence incl. store kind.")
 	vlib.Assume("Directories are created the way every real client does it (filer_pb.Mkdir, mount, S3): IsDirectory=true together with the os.ModeDir bit in Attributes.FileMode.")
 	vlib.Assume("Merge semantics of a rename onto an existing directory are taken from the implementation (children are moved one by one, same-named files are overwritten); where a rename must fail half-way (type conflict below the top level) or the target is an ancestor of the source, only the weaker invariant 'well-formed tree, no file lost or duplicated, bystanders untouched' is required.")
 	vlib.Assume("No master / volume servers: chunk deletion requests resolve no location and contact nobody; the metadata log buffer is replaced by one without flush function.")
@@ -740,7 +740,8 @@ func firstLine(s string) string {
 
 // ---------------------------------------------------------------- the state machine
 
-var names = []string{"a", "b", "c"}
+// "a" is a proper string prefix of its sibling "ab": path comparisons that forget the separator confuse the two.
+var names = []string{"a", "ab", "b", "c"}
 
 func universe(depth int) []string { return universeOver(names, depth) }
 
@@ -764,8 +765,8 @@ func universeOver(names []string, depth int) []string {
 
 var uni3 = universe(3)
 
-// the enumerator only uses the names a and b
-var uniAB3 = universeOver([]string{"a", "b"}, 3)
+// the enumerator only uses the names a and ab
+var uniAB3 = universeOver([]string{"a", "ab"}, 3)
 
 var variants = []struct {
 	kind   string
@@ -991,7 +992,7 @@ func TestPropNamespace(t *testing.T) {
 
 // ---------------------------------------------------------------- bounded-exhaustive sequences
 
-var exPaths = []string{"/a", "/b", "/a/a", "/a/b", "/b/a"}
+var exPaths = []string{"/a", "/ab", "/a/a", "/a/ab", "/ab/a"}
 
 func exOps() []op {
 	var ops []op
